@@ -351,6 +351,79 @@ theorem emplaceAll_nodup {κ ν : Type} [DecidableEq κ] (l : List (κ × ν)) (
     emplaceAll l = l := by
   simpa [emplaceAll] using emplace_fold l [] (by simpa using h)
 
+theorem bytesLt_irrefl : ∀ a : Bytes, bytesLt a a = false
+  | [] => rfl
+  | x :: xs => by simp [bytesLt, bytesLt_irrefl xs]
+
+theorem bytesLt_trans : ∀ a b c : Bytes, bytesLt a b = true → bytesLt b c = true → bytesLt a c = true
+  | [], [], _, h, _ => by simp [bytesLt] at h
+  | [], _ :: _, [], _, h => by simp [bytesLt] at h
+  | [], _ :: _, _ :: _, _, _ => rfl
+  | _ :: _, [], _, h, _ => by simp [bytesLt] at h
+  | _ :: _, _ :: _, [], _, h => by simp [bytesLt] at h
+  | x :: xs, y :: ys, z :: zs, h1, h2 => by
+    simp only [bytesLt] at h1 h2 ⊢
+    by_cases hxy : x < y
+    · by_cases hyz : y < z
+      · have : x < z := by omega
+        simp [this]
+      · by_cases hzy : z < y
+        · simp [hyz, hzy] at h2
+        · have : y = z := by omega
+          subst this; simp [hxy]
+    · by_cases hyx : y < x
+      · simp [hxy, hyx] at h1
+      · have hxy' : x = y := by omega
+        subst hxy'
+        simp only [hxy, ↓reduceIte] at h1
+        by_cases hyz : x < z
+        · simp [hyz]
+        · by_cases hzy : z < x
+          · simp [hyz, hzy] at h2
+          · simp only [hyz, hzy, ↓reduceIte] at h2 ⊢
+            exact bytesLt_trans xs ys zs h1 h2
+
+theorem chainLt_pairwise : ∀ l : List Bytes, chainLt l = true → l.Pairwise (fun a b => bytesLt a b = true)
+  | [], _ => List.Pairwise.nil
+  | [a], _ => by simp
+  | a :: b :: r, h => by
+    simp only [chainLt, Bool.and_eq_true] at h
+    have ih := chainLt_pairwise (b :: r) h.2
+    rw [List.pairwise_cons] at ih ⊢
+    refine ⟨fun x hx => ?_, List.pairwise_cons.mpr ih⟩
+    rcases List.mem_cons.mp hx with rfl | hx'
+    · exact h.1
+    · exact bytesLt_trans a b x h.1 (ih.1 x hx')
+
+theorem chainLt_nodup (l : List Bytes) (h : chainLt l = true) : l.Nodup := by
+  have hp := chainLt_pairwise l h
+  refine hp.imp ?_
+  intro a b hab heq
+  subst heq
+  rw [bytesLt_irrefl] at hab
+  cases hab
+
+theorem nodup_of_map {α β : Type} (f : α → β) : ∀ l : List α, (l.map f).Nodup → l.Nodup
+  | [], _ => List.nodup_nil
+  | x :: xs, h => by
+    simp only [List.map_cons, List.nodup_cons] at h ⊢
+    exact ⟨fun hx => h.1 (List.mem_map_of_mem hx), nodup_of_map f xs h.2⟩
+
+theorem distinctKeys_sound {κ ν : Type} (k : Codec κ) (es : List (κ × ν)) (h : distinctKeys k es = true) :
+    (es.map Prod.fst).Nodup := by
+  simp only [distinctKeys] at h
+  have h1 := chainLt_nodup _ h
+  have h2 : (es.map fun e => k.enc e.1).Nodup := (List.mergeSort_perm _ _).nodup_iff.mp h1
+  have h3 : ((es.map Prod.fst).map k.enc).Nodup := by simpa [List.map_map, Function.comp_def] using h2
+  exact nodup_of_map k.enc _ h3
+
+/-- the test is only a shortcut: `insertAll` is the sequence of `emplace` calls -/
+theorem insertAll_eq {κ ν : Type} [DecidableEq κ] (k : Codec κ) (es : List (κ × ν)) : insertAll k es = emplaceAll es := by
+  simp only [insertAll]
+  split
+  · rename_i h; exact (emplaceAll_nodup es (distinctKeys_sound k es h)).symm
+  · rfl
+
 /-- the values of `std::unordered_map<K, V>` the laws cover -/
 def MapOk {κ ν : Type} (Pk : κ → Prop) (Pv : ν → Prop) (l : List (κ × ν)) : Prop :=
   l.length < 4294967296 ∧ (∀ x ∈ l, Pk x.1 ∧ Pv x.2) ∧ (l.map Prod.fst).Nodup
@@ -363,7 +436,7 @@ theorem lawful_map {κ ν : Type} [DecidableEq κ] {k : Codec κ} {v : Codec ν}
       lawful_mapHdr.roundtrip l.length _ hl.1]
     simp only [Res.bind_ok]
     rw [decList_roundtrip (lawful_pair hk hv) l rest hl.2.1]
-    simp [emplaceAll_nodup l hl.2.2]
+    simp [insertAll_eq, emplaceAll_nodup l hl.2.2]
   prefixFree l p q hl he hq := by
     simp only [map] at he ⊢
     refine seq_prefix lawful_mapHdr (v := l.length) hl.1 he hq _ (fun c' hc => ?_)
